@@ -563,7 +563,7 @@ theorem handleLogon_shape (g0 : G8) (s : Sess) (m : InMsg) (hk : isAdminKind (ki
     | none =>
       simp only []
       generalize hs3 : (if ((if s2.cfg.initiator = true then false else s2.cfg.resetOnLogon) || logonResetFlag m && !s2.sentReset) = true
-          then s2.storeReset else s2) = s3
+          then dropAndReset s2 else s2) = s3
       have h3 : P true g0 s s3 := by rw [← hs3]; q_peel
       have hv2 := pn_verifySelect g0 s3 m false true false (Or.inr (Or.inr rfl))
       have hnt2 := verifySelect_notTooHigh s3 m true false
